@@ -73,3 +73,66 @@ package aggsender
 //@   ensures[once-at-first] stepNotify(S, N, pct, last, waiting, b) == (observedBlk(S, last, b) && pastThreshold(S, N, pct, b) && epochOf(S, N, b) > lastPast)
 //@   ensures[increasing] stepNotify(S, N, pct, last, waiting, b) ==> epochOf(S, N, b) >= waiting && stepWaiting(S, N, pct, last, waiting, b) > waiting
 //@   ensures[never-back] stepWaiting(S, N, pct, last, waiting, b) >= waiting && stepLast(S, last, b) >= last
+
+// ---- send path (C02, C10, C13): what is submitted, what is stored, in which order.
+// Ghost observers of the three external effects of sendCertificate.
+
+//@ ghost var lastParams *types.CertificateBuildParams
+//@ ghost var lastBuilt *agglayertypes.Certificate
+//@ ghost var sentCount int
+//@ ghost var lastSentCert *agglayertypes.Certificate
+//@ ghost var lastSentID Hash
+//@ ghost var savedCount int
+//@ ghost var lastSaved types.CertificateHeader
+
+//@ interface github.com/agglayer/aggkit/aggsender/types.AggsenderFlow.GetCertificateBuildParams (self, ctx)
+//@   modifies lastParams
+//@   ensures result1 != nil ==> result0 == nil
+//@   ensures lastParams == result0
+
+//@ interface github.com/agglayer/aggkit/aggsender/types.AggsenderFlow.BuildCertificate (self, ctx, buildParams)
+//@   modifies lastBuilt
+//@   ensures result1 == nil ==> result0 != nil && lastBuilt == result0
+//@   ensures result1 != nil ==> result0 == nil
+
+//@ interface github.com/agglayer/aggkit/agglayer.AgglayerClientInterface.SendCertificate (self, ctx, certificate)
+//@   modifies sentCount, lastSentCert, lastSentID
+//@   ensures result1 == nil ==> sentCount == old(sentCount) + 1 && lastSentCert == certificate && lastSentID == result0
+//@   ensures result1 != nil ==> sentCount == old(sentCount) && lastSentCert == old(lastSentCert) && lastSentID == old(lastSentID)
+
+//@ interface github.com/agglayer/aggkit/aggsender/db.AggSenderStorage.SaveLastSentCertificate (self, ctx, certificate)
+//@   requires certificate.Header != nil
+//@   modifies savedCount, lastSaved
+//@   ensures result == nil ==> savedCount == old(savedCount) + 1 && lastSaved == *certificate.Header
+//@   ensures result != nil ==> savedCount == old(savedCount) && lastSaved == old(lastSaved)
+
+//@ interface github.com/agglayer/aggkit/aggsender/db.AggSenderStorage.SaveNonAcceptedCertificate (self, ctx, nonAcceptedCert)
+//@   modifies nothing
+
+//@ interface github.com/agglayer/aggkit/aggsender/types.EpochNotifier.GetEpochStatus (self)
+//@   modifies nothing
+
+//@ interface github.com/agglayer/aggkit/aggsender.RateLimiter.Call (self, msg, allowToSleep)
+//@   modifies nothing
+
+//@ func (a *AggSender) saveCertificateToStorage
+//@   props C02 C13
+//@   requires a != nil && a.storage != nil && a.log != nil && cert.Header != nil
+//@   modifies savedCount, lastSaved
+//@   ensures[saved-once] result == nil ==> savedCount == old(savedCount) + 1 && lastSaved == *cert.Header
+//@   ensures[not-saved] result != nil ==> savedCount == old(savedCount) && lastSaved == old(lastSaved)
+//@   loop 0 invariant err != nil ==> savedCount == old(savedCount) && lastSaved == old(lastSaved)
+//@   loop 0 invariant err == nil ==> savedCount == old(savedCount) + 1 && lastSaved == *cert.Header
+
+//@ func (a *AggSender) sendCertificate
+//@   props C02 C13
+//@   requires a != nil && a.storage != nil && a.log != nil && a.flow != nil && a.aggLayerClient != nil && a.epochNotifier != nil && a.rateLimiter != nil
+//@   modifies lastParams, lastBuilt, sentCount, lastSentCert, lastSentID, savedCount, lastSaved
+//@   ensures[at-most-one-submission] sentCount == old(sentCount) || sentCount == old(sentCount) + 1
+//@   ensures[store-only-after-accepted-submission] savedCount != old(savedCount) ==> savedCount == old(savedCount) + 1 && sentCount == old(sentCount) + 1
+//@   ensures[success-means-sent-and-stored] (result1 == nil && result0 != nil && !a.cfg.DryRun) ==> sentCount == old(sentCount) + 1 && savedCount == old(savedCount) + 1 && lastSentCert == result0 && result0 == lastBuilt
+//@   ensures[dry-run-sends-nothing] a.cfg.DryRun ==> sentCount == old(sentCount) && savedCount == old(savedCount)
+//@   ensures[stored-identity] savedCount == old(savedCount) + 1 ==> lastSaved.CertificateID == lastSentID && lastSaved.Height == lastSentCert.Height && lastSaved.NewLocalExitRoot == lastSentCert.NewLocalExitRoot
+//@   ensures[stored-range-and-retry] savedCount == old(savedCount) + 1 ==> lastSaved.FromBlock == lastParams.FromBlock && lastSaved.ToBlock == lastParams.ToBlock && lastSaved.RetryCount == lastParams.RetryCount && lastSaved.CertType == lastParams.CertificateType && lastSaved.L1InfoTreeLeafCount == lastParams.L1InfoTreeLeafCount
+//@   ensures[stored-prev-ler] savedCount == old(savedCount) + 1 ==> lastSaved.PreviousLocalExitRoot != nil && *lastSaved.PreviousLocalExitRoot == lastSentCert.PrevLocalExitRoot
+//@   ensures[built-from-params] sentCount == old(sentCount) + 1 ==> lastSentCert == lastBuilt && lastParams != nil
